@@ -6,7 +6,8 @@ import AriVerif.Conc.PoolLemmas
   (possibly empty) run of `pstep` actions, so the pool of every reachable server state is pool-reachable and
   the C04 / C18 theorems (stated over `prun`) apply to the model the real server is compared with chunk by
   chunk.  On top: the send queue is FIFO without loss or duplication (`pending` grows exactly by the lines
-  enqueued), every reply of the pool is in it, and the reader hands each decodable request to the pool once.
+  enqueued) — except that a failing write loses exactly the one message the writer holds (`mstep_fifo_sendFail`,
+  `mreach_pending_lost`) —, every reply of the pool is in it, and the reader hands each decodable request to the pool once.
 -/
 namespace Ari.Conc
 open Ari
@@ -215,6 +216,43 @@ theorem pstep_proj {p p' : PState} {a : PAct} {pe : List PEff} (h : pstep p a = 
       · cases h
     · cases h
 
+/-- a reported I/O failure enqueues nothing. -/
+theorem enqs_ioEffects (cfg : SrvCfg) : enqs (ioEffects cfg) = [] := by
+  simp only [ioEffects, onIoException]
+  cases cfg.ioHandler with
+  | none => rfl
+  | some r => cases r <;> rfl
+
+/-- a reported I/O failure carries the handler notification and the exit, nothing else. -/
+theorem mem_ioEffects {cfg : SrvCfg} {e : MEff} (h : e ∈ ioEffects cfg) : e = .ioHandler ∨ e = .exit := by
+  simp only [ioEffects, onIoException] at h
+  cases hh : cfg.ioHandler with
+  | none => rw [hh] at h; simp at h; exact .inr h
+  | some r => rw [hh] at h; cases r <;> simp at h <;> grind
+
+/-- `runLocal` changes the pool and the reader's list, nothing else. -/
+theorem runLocal_eq (s : MState) (acts : List RAct) :
+    (runLocal s acts).1 = { s with pool := (runLocal s acts).1.pool, rq := (runLocal s acts).1.rq } := by
+  induction acts generalizing s with
+  | nil => rfl
+  | cons a rest ih =>
+    cases a with
+    | reply l => rfl
+    | quit => rfl
+    | poolShutdown => rfl
+    | submit m id toks =>
+      simp only [runLocal]
+      cases hd : decodeRequest m toks with
+      | none => exact ih s
+      | some r =>
+        cases r with
+        | error e => exact ih s
+        | ok a =>
+          simp only [pstep_submit]
+          exact ih _
+    | handlerExc => simp only [runLocal]; exact ih s
+    | _ => simp only [runLocal]; exact ih s
+
 /-- the state the reader runs its local actions from after receiving chunk `c`. -/
 def recvState (s : MState) (env : InitEnv) (c : String) (rest : List String) : MState :=
   { s with inbound := rest, rbuf := (feed s.rbuf c).2, rst := (dispatchAll s.cfg env s.rst (feed s.rbuf c).1).1 }
@@ -235,16 +273,29 @@ theorem mstep_cases {s s' : MState} {env : InitEnv} {tid : String} {op : MOp} {e
       s' = { s with pool := p, sendQ := s.sendQ ++ (peffLines pe).map some } ∧ enqs effs = peffLines pe) ∨
     (tid = "R" ∧ 2 ≤ s.rthr ∧ s.rthr ≠ 3 ∧ op = .put ∧ ∃ rest, s.rq = .quit :: rest ∧
       s' = { s with sendQ := s.sendQ ++ [none], rq := rest, cpc := 1 } ∧ effs = [.enqueuePill]) ∨
-    (tid = "R" ∧ 2 ≤ s.rthr ∧ s.rthr ≠ 3 ∧ op = .join ∧ (∃ rest, s.rq = .poolShutdown :: rest) ∧ s.cpc = 1 ∧ s.wthr = 3 ∧
-      s' = { s with cpc := 2 } ∧ effs = []) ∨
+    (tid = "R" ∧ 2 ≤ s.rthr ∧ s.rthr ≠ 3 ∧ op = .join ∧ (∃ rest, s.rq = .poolShutdown :: rest) ∧ s.cpc = 1 ∧
+      (s.wthr = 3 ∨ s.wthr = 4) ∧ s' = { s with cpc := 2 } ∧ effs = []) ∨
     (tid = "R" ∧ 2 ≤ s.rthr ∧ s.rthr ≠ 3 ∧ op = .poolWait ∧ (∃ rest, s.rq = .poolShutdown :: .sockClose :: rest) ∧
       s.cpc = 2 ∧ s.pool.running = 0 ∧ s.pool.workQ = [] ∧
-      s' = { s with cpc := 3, sockClosed := true, rq := [], rthr := 3 } ∧ effs = [.sockClose]) := by
+      s' = { s with cpc := 3, sockClosed := true, rq := [], rthr := 3 } ∧ effs = [.sockClose]) ∨
+    -- the failing read (EOF / reset once the delivered bytes are consumed)
+    (tid = "R" ∧ 2 ≤ s.rthr ∧ s.rthr ≠ 3 ∧ s.rthr ≠ 4 ∧ op = .recv ∧ s.rq = [] ∧ s.inbound = [] ∧ s.inEnd = true ∧
+      s' = ioReport { s with rthr := 4 } ∧ effs = ioEffects s.cfg) ∨
+    -- the failing write: the message in hand is lost
+    (tid = "W" ∧ 2 ≤ s.wthr ∧ s.wthr ≠ 3 ∧ s.wthr ≠ 4 ∧ op = .sendFail ∧ ∃ m, s.wsend = some m ∧
+      s' = ioReport { s with wsend := none, wthr := 4 } ∧ effs = ioEffects s.cfg) := by
   unfold mstep at h
+  split at h
+  · cases h
   split at h
   · next hP =>
     have hne : tid ≠ "R" := by rw [hP]; simp
     split at h
+    · split at h
+      · cases h
+      · simp only [Option.some.injEq, Prod.mk.injEq] at h
+        obtain ⟨rfl, rfl⟩ := h
+        exact .inl ⟨rfl, rfl, by simp [pending, enqs], .inl hne⟩
     · simp only [Option.some.injEq, Prod.mk.injEq] at h
       obtain ⟨rfl, rfl⟩ := h
       exact .inl ⟨rfl, rfl, by simp [pending, enqs], .inl hne⟩
@@ -275,10 +326,17 @@ theorem mstep_cases {s s' : MState} {env : InitEnv} {tid : String} {op : MOp} {e
           · next h0 =>
             have h2 : 2 ≤ s.rthr := by omega
             have h3 : s.rthr ≠ 3 := by omega
+            have h4 : s.rthr ≠ 4 := by omega
             split at h
             · next hrq =>
               split at h
-              · cases h
+              · next hin =>
+                split at h
+                · next hend =>
+                  simp only [Option.some.injEq, Prod.mk.injEq] at h
+                  obtain ⟨rfl, rfl⟩ := h
+                  exact .inr (.inr (.inr (.inr (.inr (.inr (.inr (.inl ⟨hR, h2, h3, h4, rfl, hrq, hin, hend, rfl, rfl⟩)))))))
+                · cases h
               · next c rest hin =>
                 simp only [Option.some.injEq] at h
                 exact .inr (.inl ⟨hR, h2, rfl, hrq, c, rest, hin, h.symm⟩)
@@ -302,20 +360,30 @@ theorem mstep_cases {s s' : MState} {env : InitEnv} {tid : String} {op : MOp} {e
               · next hc =>
                 simp only [Option.some.injEq, Prod.mk.injEq] at h
                 obtain ⟨rfl, rfl⟩ := h
-                exact .inr (.inr (.inr (.inr (.inr (.inr ⟨hR, h2, h3, rfl, ⟨rest, hrq⟩, hc.1, hc.2.1, hc.2.2, rfl, rfl⟩)))))
+                exact .inr (.inr (.inr (.inr (.inr (.inr (.inl ⟨hR, h2, h3, rfl, ⟨rest, hrq⟩, hc.1, hc.2.1, hc.2.2, rfl, rfl⟩))))))
               · cases h
             · cases h
       · next hR =>
         split at h
-        · split at h
+        · next hW =>
+          split at h
           · split at h
             · simp only [Option.some.injEq, Prod.mk.injEq] at h
               obtain ⟨rfl, rfl⟩ := h
               exact .inl ⟨rfl, rfl, by simp [pending, enqs], .inl hR⟩
             · cases h
-          · split at h
+          · next h1 =>
+            split at h
             · cases h
-            · split at h
+            · next h0 =>
+              have h2 : 2 ≤ s.wthr := by omega
+              have h3 : s.wthr ≠ 3 := by omega
+              have h4 : s.wthr ≠ 4 := by omega
+              split at h
+              · next m hws =>
+                simp only [Option.some.injEq, Prod.mk.injEq] at h
+                obtain ⟨rfl, rfl⟩ := h
+                exact .inr (.inr (.inr (.inr (.inr (.inr (.inr (.inr ⟨hW, h2, h3, h4, rfl, m, hws, rfl, rfl⟩)))))))
               · next hws =>
                 split at h
                 · next m rest hq =>
@@ -347,13 +415,16 @@ theorem mstep_cases {s s' : MState} {env : InitEnv} {tid : String} {op : MOp} {e
 theorem mstep_pool {s s' : MState} {env : InitEnv} {tid : String} {op : MOp} {effs : List MEff}
     (h : mstep s env tid op = some (s', effs)) : ∃ pa, prun s.pool pa = some s'.pool := by
   rcases mstep_cases h with ⟨hp, -⟩ | ⟨-, -, -, -, c, rest, -, he⟩ | ⟨-, l, rest, -, rfl, -⟩ | ⟨-, a, p, pe, -, hp, rfl, -⟩ |
-    ⟨-, -, -, -, rest, -, rfl, -⟩ | ⟨-, -, -, -, -, -, -, rfl, -⟩ | ⟨-, -, -, -, -, -, -, -, rfl, -⟩
+    ⟨-, -, -, -, rest, -, rfl, -⟩ | ⟨-, -, -, -, -, -, -, rfl, -⟩ | ⟨-, -, -, -, -, -, -, -, rfl, -⟩ |
+    ⟨-, -, -, -, -, -, -, -, rfl, -⟩ | ⟨-, -, -, -, -, m, -, rfl, -⟩
   · exact ⟨[], by rw [hp]; rfl⟩
   · have h1 := (runLocal_pool (recvState s env c rest) (recvActs s env c)).1
     rw [← he] at h1
     exact h1
   · exact (runLocal_pool { s with sendQ := s.sendQ ++ [some l] } rest).1
   · exact ⟨[a], by simp [prun, hp]⟩
+  · exact ⟨[], rfl⟩
+  · exact ⟨[], rfl⟩
   · exact ⟨[], rfl⟩
   · exact ⟨[], rfl⟩
   · exact ⟨[], rfl⟩
@@ -372,27 +443,62 @@ theorem mreach_pool {cfg : SrvCfg} {n : Nat} {s : MState} {log : List String} (h
 theorem mreach_pinv {cfg : SrvCfg} {n : Nat} {s : MState} {log : List String} (h : MReach cfg n s log) : PInv s.pool :=
   PInv.reach (mreach_pool h)
 
-/-- **send queue is FIFO, lossless, duplicate-free.** A step appends exactly the lines it enqueues, in
-    order, to written ++ held ++ queued; the writer moves lines along without reordering. -/
-theorem mstep_fifo {s s' : MState} {env : InitEnv} {tid : String} {op : MOp} {effs : List MEff}
-    (h : mstep s env tid op = some (s', effs)) : pending s' = pending s ++ enqs effs := by
+/-- a step appends exactly the lines it enqueues, in order, to written ++ held ++ queued — unless it is the failing write,
+    which loses exactly the message the writer holds (and enqueues nothing). -/
+theorem mstep_fifo_cases {s s' : MState} {env : InitEnv} {tid : String} {op : MOp} {effs : List MEff}
+    (h : mstep s env tid op = some (s', effs)) :
+    pending s' = pending s ++ enqs effs ∨
+    (tid = "W" ∧ op = .sendFail ∧ s.wthr ≠ 4 ∧ s'.wthr = 4 ∧ enqs effs = [] ∧ ∃ m, s.wsend = some m ∧ s'.wsend = none ∧
+      s'.written = s.written ∧ s'.sendQ = s.sendQ) := by
   rcases mstep_cases h with ⟨-, -, hp, -⟩ | ⟨-, -, -, -, c, rest, -, he⟩ | ⟨-, l, rest, -, rfl, rfl⟩ |
     ⟨-, a, p, pe, -, -, rfl, he⟩ |
-    ⟨-, -, -, -, rest, -, rfl, rfl⟩ | ⟨-, -, -, -, -, -, -, rfl, rfl⟩ | ⟨-, -, -, -, -, -, -, -, rfl, rfl⟩
-  · exact hp
-  · obtain ⟨-, -, -, h4, h5⟩ := runLocal_pool (recvState s env c rest) (recvActs s env c)
+    ⟨-, -, -, -, rest, -, rfl, rfl⟩ | ⟨-, -, -, -, -, -, -, rfl, rfl⟩ | ⟨-, -, -, -, -, -, -, -, rfl, rfl⟩ |
+    ⟨-, -, -, -, -, -, -, -, rfl, rfl⟩ | ⟨hW, -, -, h4, hop, m, hm, rfl, rfl⟩
+  · exact .inl hp
+  · left
+    obtain ⟨-, -, -, h4, h5⟩ := runLocal_pool (recvState s env c rest) (recvActs s env c)
     rw [← he] at h4 h5
     rw [h4, h5, List.append_nil]
     rfl
-  · obtain ⟨-, -, -, h4, h5⟩ := runLocal_pool { s with sendQ := s.sendQ ++ [some l] } rest
+  · left
+    obtain ⟨-, -, -, h4, h5⟩ := runLocal_pool { s with sendQ := s.sendQ ++ [some l] } rest
     rw [h4]
     simp [pending, enqs] at h5 ⊢
     exact h5
-  · rw [he]
+  · left
+    rw [he]
     simp [pending]
-  · simp [pending, enqs]
-  · simp [pending, enqs]
-  · simp [pending, enqs]
+  · left; simp [pending, enqs]
+  · left; simp [pending, enqs]
+  · left; simp [pending, enqs]
+  · left; rw [enqs_ioEffects]; simp [pending, ioReport]
+  · exact .inr ⟨hW, hop, h4, rfl, enqs_ioEffects _, m, hm, rfl, rfl, rfl⟩
+
+/-- **send queue is FIFO, lossless, duplicate-free.** A step — other than a failing write, see `mstep_fifo_sendFail` —
+    appends exactly the lines it enqueues, in order, to written ++ held ++ queued; the writer moves lines along without
+    reordering. -/
+theorem mstep_fifo {s s' : MState} {env : InitEnv} {tid : String} {op : MOp} {effs : List MEff}
+    (h : mstep s env tid op = some (s', effs)) (hop : op ≠ .sendFail) : pending s' = pending s ++ enqs effs := by
+  rcases mstep_fifo_cases h with h | ⟨-, h, -⟩
+  · exact h
+  · exact absurd h hop
+
+/-- **a failing write loses exactly the message in the writer's hand**, nothing else: what was written and what is queued
+    stay as they are (and nothing is enqueued). -/
+theorem mstep_fifo_sendFail {s s' : MState} {env : InitEnv} {effs : List MEff}
+    (h : mstep s env "W" .sendFail = some (s', effs)) :
+    ∃ m, s.wsend = some m ∧ pending s = s.written ++ m :: s.sendQ.filterMap id ∧
+      pending s' = s.written ++ s.sendQ.filterMap id ∧ enqs effs = [] := by
+  unfold mstep at h
+  split at h
+  · cases h
+  simp only [String.reduceEq, ↓reduceIte] at h
+  repeat' split at h
+  all_goals first
+    | contradiction
+    | (simp only [Option.some.injEq, Prod.mk.injEq] at h
+       obtain ⟨rfl, rfl⟩ := h
+       exact ⟨_, by assumption, by simp [pending, *], by simp [pending, ioReport], enqs_ioEffects _⟩)
 
 /-- every line the pool put out was enqueued by that very step (and only pool-thread steps extend
     `pool.out`). -/
@@ -400,7 +506,8 @@ theorem mstep_pool_out {s s' : MState} {env : InitEnv} {tid : String} {op : MOp}
     (h : mstep s env tid op = some (s', effs)) :
     s'.pool.out = s.pool.out ∨ ∃ l, s'.pool.out = s.pool.out ++ [l] ∧ enqs effs = [l] := by
   rcases mstep_cases h with ⟨hp, -⟩ | ⟨-, -, -, -, c, rest, -, he⟩ | ⟨-, l, rest, -, rfl, -⟩ | ⟨-, a, p, pe, hns, hp, rfl, he⟩ |
-    ⟨-, -, -, -, rest, -, rfl, -⟩ | ⟨-, -, -, -, -, -, -, rfl, -⟩ | ⟨-, -, -, -, -, -, -, -, rfl, -⟩
+    ⟨-, -, -, -, rest, -, rfl, -⟩ | ⟨-, -, -, -, -, -, -, rfl, -⟩ | ⟨-, -, -, -, -, -, -, -, rfl, -⟩ |
+    ⟨-, -, -, -, -, -, -, -, rfl, -⟩ | ⟨-, -, -, -, -, m, -, rfl, -⟩
   · exact .inl (by rw [hp])
   · have h3 := (runLocal_pool (recvState s env c rest) (recvActs s env c)).2.2.1
     rw [← he] at h3
@@ -413,20 +520,102 @@ theorem mstep_pool_out {s s' : MState} {env : InitEnv} {tid : String} {op : MOp}
   · exact .inl rfl
   · exact .inl rfl
   · exact .inl rfl
+  · exact .inl rfl
+  · exact .inl rfl
 
-/-- **the send queue neither loses, duplicates nor reorders**: written ++ held ++ queued is exactly the log
-    of everything enqueued so far. -/
-theorem mreach_pending {cfg : SrvCfg} {n : Nat} {s : MState} {log : List String} (h : MReach cfg n s log) :
-    pending s = log := by
+theorem runLocal_wframe {s s' : MState} {acts : List RAct} {e : List MEff} (h : runLocal s acts = (s', e)) :
+    s'.written = s.written ∧ s'.wsend = s.wsend ∧ s'.wthr = s.wthr ∧ s'.mpc = s.mpc ∧ s'.sendQ = s.sendQ := by
+  have := runLocal_eq s acts
+  rw [h] at this
+  have this : s' = { s with pool := s'.pool, rq := s'.rq } := this
+  rw [this]
+  exact ⟨rfl, rfl, rfl, rfl, rfl⟩
+
+/-- the writer's variables are the writer's: a step of another thread leaves `written`, `wsend` and `wthr` alone — except the
+    starting thread's first step, which creates the writer thread; and a writer that steps exists and has not died. -/
+theorem mstep_wframe {s s' : MState} {env : InitEnv} {tid : String} {op : MOp} {effs : List MEff}
+    (h : mstep s env tid op = some (s', effs)) :
+    (tid = "W" ∧ s.wthr ≠ 0 ∧ s.wthr ≠ 4 ∧ s'.mpc = s.mpc) ∨
+    (s'.written = s.written ∧ s'.wsend = s.wsend ∧
+      ((s'.wthr = s.wthr ∧ (s'.mpc = s.mpc ∨ s'.mpc = 2)) ∨ (s.mpc = 0 ∧ s'.mpc = 1))) := by
+  unfold mstep at h
+  repeat' split at h
+  all_goals first
+    | contradiction
+    | (simp only [Option.some.injEq, Prod.mk.injEq] at h; obtain ⟨rfl, rfl⟩ := h
+       first
+         | exact .inr ⟨rfl, rfl, .inl ⟨rfl, .inl rfl⟩⟩
+         | exact .inr ⟨rfl, rfl, .inl ⟨rfl, .inr rfl⟩⟩
+         | exact .inr ⟨rfl, rfl, .inr ⟨by assumption, rfl⟩⟩
+         | exact .inl ⟨by assumption, by omega, by omega, rfl⟩)
+    | (obtain ⟨p, pe, hp, rfl, he⟩ := liftPool_spec h; exact .inr ⟨rfl, rfl, .inl ⟨rfl, .inl rfl⟩⟩)
+    | (simp only [Option.some.injEq, Prod.mk.injEq] at h; obtain ⟨rfl, rfl⟩ := h
+       obtain ⟨g1, g2, g3, g4, -⟩ := runLocal_wframe (by assumption)
+       exact .inr ⟨g1, g2, .inl ⟨g3, .inl g4⟩⟩)
+    | (simp only [Option.some.injEq] at h
+       obtain ⟨g1, g2, g3, g4, -⟩ := runLocal_wframe h
+       exact .inr ⟨g1, g2, .inl ⟨g3, .inl g4⟩⟩)
+
+/-- **the send queue neither duplicates nor reorders, and loses at most the one message a failed write had in hand**: the
+    log of everything enqueued so far is written ++ lost ++ held ++ queued, where `lost` is empty unless a write has failed
+    (`wthr = 4`), and then has at most one element.  (Also: the writer thread does not exist before the starting thread
+    created it.) -/
+theorem mreach_pending_lost {cfg : SrvCfg} {n : Nat} {s : MState} {log : List String} (h : MReach cfg n s log) :
+    (s.mpc = 0 → s.wthr = 0) ∧
+    ∃ lost : List String, lost.length ≤ 1 ∧ (s.wthr ≠ 4 → lost = []) ∧
+      log = s.written ++ lost ++ s.wsend.toList ++ s.sendQ.filterMap id := by
   induction h with
-  | init => rfl
-  | step _ hs ih => rw [mstep_fifo hs, ih]
+  | init => exact ⟨fun _ => rfl, [], by simp, fun _ => rfl, rfl⟩
+  | @step s s' log env tid op effs _ hs ih =>
+    obtain ⟨hm, lost, hl, hne, hlog⟩ := ih
+    have hf := mstep_wframe hs
+    refine ⟨?_, ?_⟩
+    · rcases hf with ⟨-, h0, -, hmp⟩ | ⟨-, -, ⟨hw, hmp⟩ | ⟨-, hmp⟩⟩
+      · intro h; rw [hmp] at h; exact absurd (hm h) h0
+      · intro h; rw [hw]; apply hm; omega
+      · intro h; omega
+    · rcases mstep_fifo_cases hs with hp | ⟨hW, hop, h4, h4', he, m, hm1, hm2, hwr, hq⟩
+      · by_cases hw4 : s.wthr = 4
+        · -- the writer is dead: the other threads only append to the queue
+          rcases hf with ⟨-, -, h, -⟩ | ⟨hwr, hws, hw⟩
+          · exact absurd hw4 h
+          · have hw' : s'.wthr = 4 := by
+              rcases hw with ⟨h, -⟩ | ⟨h, -⟩
+              · rw [h]; exact hw4
+              · have := hm h; omega
+            refine ⟨lost, hl, fun h => absurd hw' h, ?_⟩
+            have hq : s'.sendQ.filterMap id = s.sendQ.filterMap id ++ enqs effs := by
+              simp only [pending, hwr, hws, List.append_assoc] at hp
+              exact List.append_cancel_left (List.append_cancel_left hp)
+            rw [hlog, hwr, hws, hq]
+            simp
+        · have := hne hw4
+          subst this
+          refine ⟨[], by simp, fun _ => rfl, ?_⟩
+          have : pending s = log := by rw [hlog]; simp [pending]
+          rw [← this, ← hp]
+          simp [pending]
+      · -- the failing write
+        have := hne h4
+        subst this
+        refine ⟨[m], by simp, fun h => absurd h4' h, ?_⟩
+        rw [hlog, he, hm1, hm2, hwr, hq]
+        simp
 
-/-- **what is written is a prefix of what was enqueued, in enqueue order.** -/
+/-- **the send queue neither loses, duplicates nor reorders** as long as no write has failed: written ++ held ++ queued is
+    exactly the log of everything enqueued so far.  (After a failed write exactly the message the writer held is missing:
+    `mstep_fifo_sendFail`, `mreach_pending_lost`.) -/
+theorem mreach_pending {cfg : SrvCfg} {n : Nat} {s : MState} {log : List String} (h : MReach cfg n s log)
+    (hw : s.wthr ≠ 4) : pending s = log := by
+  obtain ⟨-, lost, -, hne, hlog⟩ := mreach_pending_lost h
+  rw [hlog, hne hw]
+  simp [pending]
+
+/-- **what is written is a prefix of what was enqueued, in enqueue order** (failed write or not). -/
 theorem mreach_written_prefix {cfg : SrvCfg} {n : Nat} {s : MState} {log : List String} (h : MReach cfg n s log) :
     s.written <+: log := by
-  rw [← mreach_pending h]
-  exact ⟨s.wsend.toList ++ s.sendQ.filterMap id, by simp [pending]⟩
+  obtain ⟨-, lost, -, -, hlog⟩ := mreach_pending_lost h
+  exact ⟨lost ++ s.wsend.toList ++ s.sendQ.filterMap id, by rw [hlog]; simp⟩
 
 /-- **every reply the pool produced was enqueued, in the pool's order.** -/
 theorem mreach_out_sublist {cfg : SrvCfg} {n : Nat} {s : MState} {log : List String} (h : MReach cfg n s log) :
@@ -438,11 +627,11 @@ theorem mreach_out_sublist {cfg : SrvCfg} {n : Nat} {s : MState} {log : List Str
     · rw [h1]; exact ih.trans (List.sublist_append_left _ _)
     · rw [h1, h2]; exact List.Sublist.append ih (List.Sublist.refl _)
 
-/-- once the writer has drained the queue, every pool reply is on the wire. -/
+/-- once the writer has drained the queue — no write having failed — every pool reply is on the wire. -/
 theorem mreach_drained {cfg : SrvCfg} {n : Nat} {s : MState} {log : List String} (h : MReach cfg n s log)
-    (hq : s.sendQ = []) (hw : s.wsend = none) : s.pool.out.Sublist s.written := by
+    (hw4 : s.wthr ≠ 4) (hq : s.sendQ = []) (hw : s.wsend = none) : s.pool.out.Sublist s.written := by
   have h1 := mreach_out_sublist h
-  rw [← mreach_pending h] at h1
+  rw [← mreach_pending h hw4] at h1
   simpa [pending, hq, hw] using h1
 
 /-- **the reader hands every decodable request to the pool exactly once, in line order**: after a step the
@@ -462,7 +651,8 @@ theorem mstep_tasks {s s' : MState} {env : InitEnv} {tid : String} {op : MOp} {e
          else [])) := by
   rcases mstep_cases h with ⟨hp, hq, -, hne⟩ | ⟨hR, h2, rfl, hrq, c, rest, hin, he⟩ | ⟨-, l, rest, hrq, rfl, -⟩ |
     ⟨hR, a, p, pe, hns, hp, rfl, -⟩ |
-    ⟨-, -, -, -, rest, hrq, rfl, -⟩ | ⟨-, -, -, -, ⟨rest, hrq⟩, -, -, rfl, -⟩ | ⟨-, -, -, rfl, -⟩
+    ⟨-, -, -, -, rest, hrq, rfl, -⟩ | ⟨-, -, -, -, ⟨rest, hrq⟩, -, -, rfl, -⟩ | ⟨-, -, -, rfl, -⟩ |
+    ⟨hR, h2, -, -, rfl, hrq, hin, -, rfl, -⟩ | ⟨hW, -, -, -, -, m, -, rfl, -⟩
   · have hg : ¬ (tid = "R" ∧ 2 ≤ s.rthr ∧ s.rq = []) := by
       rintro ⟨h1, h2, -⟩
       rcases hne with h | h
@@ -494,6 +684,11 @@ theorem mstep_tasks {s s' : MState} {env : InitEnv} {tid : String} {op : MOp} {e
   · rw [if_neg (by rintro ⟨-, -, h3⟩; rw [hrq] at h3; cases h3), List.append_nil]
     simp [owed]
   · exact absurd rfl hop
+  · rw [if_pos ⟨hR, h2, hrq⟩, hin]
+    simp only [List.append_nil]
+    rfl
+  · rw [if_neg (fun h => by rw [hW] at h; simp at h), List.append_nil]
+    rfl
 
 /-- the last step of `close()`: the pool keeps its tasks; whatever the reader still owed is dropped (it has left its
     loop). -/
